@@ -32,6 +32,7 @@ Decides:
  W nested windows  the hole test of ParseAdjacent::eval counts present items AFTER the window was clamped to the caller's scope; a command entered
                    inside a window gets name .. end of the ENCLOSING scope, never the end of the line (shared with C08).
  L start widths    State::ranges: per variant of the group's first item the number of items a start position must have (argument 2, everything else 1).
+ L every start     the only way to skip a start position before the probe is "nothing is present here" (State::len); ArgRangesIter hands out self.width itself.
 Does not decide: which vectors are accepted for a given shape (index arithmetic over run-time ledgers)."""
 import re
 from core import *
